@@ -64,6 +64,10 @@ func c16Config() world.Config {
 			for _, s := range c16Seeds {
 				g.NamesList = append(g.NamesList, rnstypes.Names{Name: s.name, Tld: s.tld, Expires: s.expires, Value: world.MakeAcct("A").Bech, Data: "{}", Subdomains: []*rnstypes.Names{}})
 			}
+			// the starter names the Init message would generate at the first heights of this chain, held by A as paid, live names
+			for h := c16Start - 1; h <= c16Start+8; h++ {
+				g.NamesList = append(g.NamesList, rnstypes.Names{Name: rnstypes.MakeName(int(h), h), Tld: "jkl", Expires: c16Start + 1_000_000, Value: world.MakeAcct("A").Bech, Data: `{"paid":true}`, Subdomains: []*rnstypes.Names{}})
+			}
 			gs[rnstypes.ModuleName] = cdc.MustMarshalJSON(&g)
 		},
 	}
@@ -208,6 +212,33 @@ func c16Enum(thorough bool) mc.Enum {
 				}
 			}
 		}
+	}
+	// (d) the free-name message at a height whose generated starter name is somebody's paid, live name
+	for off := 0; off <= 4; off++ {
+		off := off
+		e.Cases = append(e.Cases, mc.Case{Desc: fmt.Sprintf("init-over-live|+%d|B", off), Run: func(env world.Env) mc.CaseResult {
+			w := env.W()
+			k := w.App.RnsKeeper
+			for i := 0; i < off; i++ {
+				env.NextBlock(6 * time.Second)
+			}
+			h := env.Ctx().BlockHeight()
+			name := rnstypes.MakeName(int(h), h)
+			prev, had := k.GetNames(env.Ctx(), name, "jkl")
+			if !had {
+				panic(fmt.Sprintf("harness: the starter name of height %d is not seeded", h))
+			}
+			res := env.Deliver(rnstypes.NewMsgInit(w.A("B").Bech))
+			cr := mc.CaseResult{Class: "init-rejected/live-other", Nontrivial: true}
+			if res.OK() {
+				cr.Class = "init-accepted/live-other"
+			}
+			now, found := k.GetNames(env.Ctx(), name, "jkl")
+			if !found || now.Value != prev.Value || now.Expires != prev.Expires {
+				cr.Viols = append(cr.Viols, viol("live-name-only-by-owner", "takeover-by-init", "height %d: Init by B (accepted=%v) changed the live paid name %s.jkl of A: owner %s -> %s, expiry %d -> %d", h, res.OK(), name, w.NameOf(prev.Value), w.NameOf(now.Value), prev.Expires, now.Expires))
+			}
+			return cr
+		}})
 	}
 	// (c) register twice in a row (renewal of a just-registered name, takeover attempt of a just-registered name)
 	for _, y1 := range []int64{1, 2} {
